@@ -5,3 +5,4 @@ import GffProofs.Props.C08a
 import GffProofs.Props.C08b
 import GffProofs.Props.C07
 import GffProofs.Props.C02
+import GffProofs.Props.C07Line
